@@ -156,7 +156,7 @@ def run(ctx):
     # ---------------------------------------------------------------- binding self-test
     selftest = {"corrupted_rejected": 0}
     probe = next(i for i in insts if len(i["ring"]) >= 3 and len(set(i["ring"])) >= 2 and i["strat"]["kind"] == "Simple"
-                 and i["strat"]["rf"] == 1 and not P.evaluate(i))
+                 and i["strat"]["rf"] == 1)
     bad1 = dict(probe, byKey=[sorted(set(x) | {h for h in probe["ring"]}) for x in probe["byKey"]])
     bad2 = dict(probe, ring=probe["ring"][1:] + probe["ring"][:1])
     for b in (bad1, bad2):
